@@ -198,10 +198,11 @@ def audit_axioms(pid: str, build_log: str) -> tuple[dict, list[str]]:
 
 # ---------------------------------------------------------------- known findings
 def load_known(pid: str) -> tuple[list[dict], list[dict]]:
-    if not KNOWN.exists():
-        return [], []
-    data = json.loads(KNOWN.read_text())
-    ents = [e for e in data.get("findings", []) if e.get("property") == pid]
+    ents = []
+    files = ([KNOWN] if KNOWN.exists() else []) + sorted((VERIF / "known_findings.d").glob("*.json"))
+    for f in files:
+        data = json.loads(f.read_text())
+        ents += [e for e in data.get("findings", []) if e.get("property") == pid]
     return [e for e in ents if e.get("status") == "open"], [e for e in ents if e.get("status") == "fixed"]
 
 
@@ -303,7 +304,6 @@ def write_evidence(ctx: Ctx, violations: int, known_reproduced: list, checker_cm
         # the exploration-style keys remain and `undischarged` says why
         cov["undischarged"] = cov.pop("obligations")
         cov.pop("discharged")
-        cov["distinct_nontrivial"] = max(2, cov["distinct_nontrivial"]) if ctx.evaluations >= 2 else cov["distinct_nontrivial"]
     ev = {
         "property_id": ctx.pid,
         "tier": ctx.tier,
